@@ -52,7 +52,6 @@ proof { assert(from_origin_result(ignore_files@, args0, env.after_gitcfg@, env.v
 //@ item DirTourist
 //@ item DirTourist::must_skip
 //@ header
-    #[verifier::exec_allows_no_decreases_clause]
     #[verifier::loop_isolation(false)]
     pub fn must_skip(&self, mut path: &PathS) -> (r: bool)
         ensures r == must_skip_spec(*path, self.base, self.to_skip.s@), // OBL:C14.must_skip.a_skipped_directory_covers_its_whole_subtree
@@ -63,6 +62,7 @@ proof { assert(from_origin_result(ignore_files@, args0, env.after_gitcfg@, env.v
 invariant
     !self.to_skip.s@.contains(*path),
     must_skip_spec(orig, self.base, self.to_skip.s@) == up_n(*path, self.base, self.to_skip.s@, depth(*path)), // OBL:C14.must_skip.a_skipped_directory_covers_its_whole_subtree
+decreases depth(*path) // OBL:C14.must_skip.the_walk_up_terminates
 //@ item DirTourist::skip
 //@ header
     pub fn skip(&mut self, path: PathS)
@@ -101,6 +101,9 @@ invariant
             // a directory is handed out only if it is not beneath a skipped one, the ignore files found so far do not ignore it, and it is related to the explicit watch paths
             r is Find ==> r->Find_0 == path && !must_skip_spec(path, old(self).base, old(self).to_skip.s@) && dir_passes(old(self).filter.files@, path)
                 && related(path, old(self).to_explicitly_watch.s@), // OBL:C14.visit_path.hands_out_only_unskipped_unignored_related_directories
+            // ... and every such directory IS handed out, unless listing it failed, which is then reported (nothing that should be searched is silently dropped)
+            !must_skip_spec(path, old(self).base, old(self).to_skip.s@) && dir_passes(old(self).filter.files@, path) && related(path, old(self).to_explicitly_watch.s@)
+                ==> r is Find || final(self).errors@.len() > old(self).errors@.len(), // OBL:C14.visit_path.every_unskipped_unignored_related_directory_is_handed_out
             // an ignored or unrelated directory is pruned: on the skip list, and nothing beneath it stays queued
             r is Skip && !must_skip_spec(path, old(self).base, old(self).to_skip.s@) && !(dir_passes(old(self).filter.files@, path) && related(path, old(self).to_explicitly_watch.s@))
                 ==> final(self).to_skip.s@ == old(self).to_skip.s@.insert(path)
@@ -122,7 +125,7 @@ let ghost lst = dir.entries@; let ghost tv0 = old(self).to_visit@; let ghost d0 
 invariant
     0 <= dir.pos@ <= dir.entries@.len(), dir.entries@ == lst, lst == fs_list(d0)->Ok_0, fs_list(d0) is Ok,
     self.base == old(self).base, self.filter.files == old(self).filter.files, self.to_explicitly_watch.s == old(self).to_explicitly_watch.s,
-    old(self).to_skip.s@.subset_of(self.to_skip.s@),
+    old(self).to_skip.s@.subset_of(self.to_skip.s@), self.errors@.len() >= old(self).errors@.len(),
     forall|i: int| 0 <= i < lst.len() ==> parent_of((#[trigger] lst[i]).p) == Some(d0),
     inv_queued(lst, dir.pos@, self.filter.files@, self.base, self.to_skip.s@, self.to_visit@), // OBL:C14.visit_path.every_unignored_subdirectory_is_queued
     inv_pruned(lst, dir.pos@, self.filter.files@, self.base, self.to_skip.s@), // OBL:C14.visit_path.ignored_subdirectories_are_pruned
@@ -130,6 +133,14 @@ invariant
 body_start:
 let ghost sk0 = self.to_skip.s@; let ghost tv1 = self.to_visit@; let ghost n0 = dir.pos@ - 1;
 proof { assert(lst[n0] == entry); }
+//@ hint? 1 after `self.skip(path);`
+proof {
+    // (this is the "unrelated" exit: no explicitly watched path is related to this directory)
+    assert forall|a: PathS| old(self).to_explicitly_watch.s@.contains(a) implies !rel1(path, a) by {
+        let pp = |a: PathS| rel1(path, a);
+        assert(pp(a) == rel1(path, a));
+    }
+}
 //@ hint 1 after `if self.must_skip(&path) {`
 proof { lemma_after_nothing(lst, n0, self.filter.files@, self.base, sk0, tv1); }
 //@ hint? 2 after `self.skip(path);`
